@@ -20,15 +20,16 @@ LEVEL_NOTE = ("Model fidelity is checked, not proved. Layered correspondence: re
               "k_eff, apodisation weights are inputs of the K ops. 'Finite wherever the wavelengths are inside the window' is checked by "
               "evaluation only (no theorem). Schmidt/HOM invariance is proved as invariance of any degree-0 homogeneous functional; that "
               "those functionals are homogeneous is C11/C09/C10's business.")
-OPS = {"pump_amp", "spectral_width", "norms", "jsa_raw", "jsa", "invalid_freq", "pm_consts"}
+OPS = {"jsi_singles_raw", "pump_amp", "spectral_width", "norms", "jsa_raw", "jsa", "invalid_freq", "pm_consts"}
 TOL = {"pump_amp": ("rel", 1e-11), "spectral_width": ("rel", 1e-11), "norms": ("rel", 1e-11), "jsa_raw": ("csum", 1e-10),
-       "jsa": ("rel", 1e-11), "pm_consts": ("ulp", 1)}
+       "jsa": ("rel", 1e-11), "pm_consts": ("ulp", 1), "jsi_singles_raw": ("rel", 1e-12)}
 DEFAULT_TOL = ("exact",)
 RULE = ("family pm/k: random general setups × 2 frequency pairs (envelope, spectral width, normalisations, jsa_raw for several divs, "
         "constants); family pm/c07: setups (two thirds phase-matched by the crate's optimum calls) × {3 random pairs, 6 pairs on the "
         "threshold contour at relative offsets ±1e-12, ±1e-6, ±1e-2, 12 off-box pairs incl. ±1 ulp edges of every face of the box, 4 "
         "pairs just inside the box} × one (power, deff) scale pair log-uniform over 6 decades each; every other setup a 4×4 (6×6 "
-        "thorough) grid for rates, efficiencies, Schmidt number, HOM visibility")
+        "thorough) grid for rates, efficiencies, Schmidt number, HOM visibility, two-source HOM of the setup against its rescaled copy "
+        "(free functions, both orders); thresholds 1e-2/1e-4/0.25 × 14 envelope targets around the threshold and in [thr, sqrt(thr))")
 RESIDUAL = ("finiteness inside the transmission window (non-vanishing of A1, A2, denom1·denom2, no overflow in exp) is checked by "
             "evaluation only; floating-point rounding is measured (linearity ≤ ~1e-15, invariance ≤ ~1e-13)")
 TRUSTED_EXTRA = ["tools/props/_pmtol.py: complex-aware comparison (|Δ| relative to the modulus / to the absolute quadrature sum)"]
@@ -37,5 +38,5 @@ CHECKER_MODULES = ["Spdc.Real.Jsa"]
 
 def families(tier, seed):
     if tier == "quick":
-        return [("pm", seed, 1000, ["k"]), ("pm", seed, 1000, ["c07"])]
+        return [("pm", seed, 600, ["k"]), ("pm", seed, 500, ["c07"])]
     return [("pm", seed, 4000, ["k"]), ("pm", seed, 4000, ["c07"])]
